@@ -128,8 +128,18 @@ func (r *Run) c07Scenario(sc int) {
 		q := qs[r.rng.Intn(len(qs))]
 		src := q.dst
 		t := append([]byte{}, q.t...)
-		kind := r.rng.Intn(12)
+		kind := r.rng.Intn(13)
 		switch kind {
+		case 12:
+			// (address, t) pair whose concatenation equals the genuine one: drop the first character
+			// of the address string and append it to t
+			if v4 := q.dst.IP.To4(); v4 != nil && v4[0] >= 110 && (v4[0]/10)%10 != 0 {
+				ip := append(net.IP{}, v4...)
+				first := byte('0' + v4[0]/100)
+				ip[0] = v4[0] % 100
+				src = udp(ip, q.dst.Port)
+				t = append(t, first)
+			}
 		case 0, 1, 2: // genuine
 		case 3:
 			t = append(t, byte(r.rng.Intn(256)))
@@ -158,7 +168,7 @@ func (r *Run) c07Scenario(sc int) {
 				src, t = old.src, old.t
 			}
 		}
-		if kind >= 3 && kind <= 8 {
+		if (kind >= 3 && kind <= 8) || kind == 12 {
 			nearMiss++
 		}
 		var marker [20]byte
